@@ -97,6 +97,18 @@ theorem merge_concatenation_prefix (hm : newMerger custom linkFn inputs = .ok m)
   rw [this.1]
   exact catSpec_prefix _ _
 
+/-- precisely: concatenation stops at the first failing input — the output is everything of the inputs in
+front of it followed by what it delivers, and the error returned is its error -/
+theorem merge_concatenation_stops_at_first_error (hm : newMerger custom linkFn inputs = .ok m)
+    (hr : m.readAll H = (out, fin)) (hl : lessOf custom inputs = none) (e : Nat) (hf : fin = some (.err e)) :
+    ∃ pre p post, srcsOf inputs = pre ++ p :: post ∧ (∀ q, q ∈ pre → q.2.term = .eof) ∧ p.2.term = .err e ∧
+      out = delivered (linksOf linkFn inputs) (pre ++ [p]) := by
+  have hc := readAll_cat H hm hl
+  rw [hr, hf] at hc
+  simp only [Prod.mk.injEq] at hc
+  obtain ⟨pre, p, post, h1, h2, h3, h4⟩ := catSpec_split _ _ e (Option.some.inj hc.2).symm
+  exact ⟨pre, p, post, h1, h2, h3, by rw [hc.1, h4]⟩
+
 /-! ### order -/
 
 /-- if `less` is a strict weak order and every input (re-linked) is sorted by it, the output is sorted by
